@@ -6,6 +6,7 @@
 //! lengths, radices, small shifts and flags are JSON numbers; absent values are omitted, never null.
 #![allow(clippy::needless_range_loop)]
 
+pub mod worst_divsteps;
 pub mod gens;
 pub mod aliases;
 
@@ -172,7 +173,14 @@ impl Cx {
         assert!(!out.is_empty(), "--out required");
         let f = std::fs::File::create(&out).expect("create trace file");
         *OUT.lock().unwrap() = Some(std::io::BufWriter::with_capacity(1 << 20, f));
-        if std::env::var("VH_LOUD").is_err() { std::panic::set_hook(Box::new(|_| {})); }
+        // every panic flushes what has been recorded: if it happens outside a recorded call (preparatory code of a
+        // recorder calling into the crate) the process dies, and the driver still judges the events written so far
+        let loud = std::env::var("VH_LOUD").is_ok();
+        let prev = std::panic::take_hook();
+        std::panic::set_hook(Box::new(move |info| {
+            if let Ok(mut g) = OUT.try_lock() { if let Some(w) = g.as_mut() { let _ = w.flush(); } }
+            if loud { prev(info); }
+        }));
         let prof = if cfg!(debug_assertions) { "chk" } else { "rel" };
         let thorough = tier == "thorough";
         if scale == 0 {
